@@ -92,6 +92,11 @@ class NamesExtractor(walkers.dag.DagWalker):
         op.OperatorKind.LE,
         op.OperatorKind.LT,
         op.OperatorKind.EQUALS,
+        op.OperatorKind.ALWAYS,
+        op.OperatorKind.SOMETIME,
+        op.OperatorKind.SOMETIME_BEFORE,
+        op.OperatorKind.SOMETIME_AFTER,
+        op.OperatorKind.AT_MOST_ONCE,
     )
     def walk_union(self, expression: FNode, args: List[Set[str]]) -> Set[str]:
         return self._args_merge_in_place(args, set())
